@@ -1577,7 +1577,10 @@ fn sweeprace_case(rng: &mut Rng, out: &mut Out, dir: &str, idx: u64) {
     out.count("sweeprace case");
     out.count(&format!("sweeprace {}", if mem { "memory-only" } else { "persistent" }));
     *out.hist.entry("sweeprace keys re-created".into()).or_insert(0) += recreated.len() as u64;
-    report_inv(out, &store, None, "after the sweeper raced with re-creating writers");
+    // the standing invariants read the two indexes one after the other: only when nothing is left for the (still
+    // running) sweeper to remove is the store at rest
+    if recreated.len() == nkeys { report_inv(out, &store, None, "after the sweeper raced with re-creating writers"); }
+    else { out.count("sweeprace: deadline reached before every key was re-created (standing invariants not evaluated)"); }
     if let Some(b) = bad {
         out.failures.push(format!("C11\tsweeper racing with re-creating writers ({}): {}\t-", if mem { "memory-only" } else { "persistent" }, b));
         out.failures.push(format!("C14\tsweeper racing with re-creating writers ({}): {}\t-", if mem { "memory-only" } else { "persistent" }, b));
